@@ -1094,7 +1094,20 @@ func (g *gen) sChan() {
 
 func (g *gen) sSelect() {
 	g.tmp++
-	switch g.r.Intn(3) {
+	switch g.r.Intn(4) {
+	case 3:
+		// the operands of the receive target are evaluated when the case is selected; they may suspend
+		g.f("select:recv-into-indexed-target")
+		g.line("ch <- %s", g.mod(g.intExpr(1)))
+		g.stmtStart()
+		g.line("select {")
+		if g.r.Bool() {
+			g.line("case arr[ix(%s, 3)] = <-ch:", g.atomCall())
+		} else {
+			g.line("case m[ks[ix(%s, 3)]] = <-ch:", g.atomCall())
+		}
+		g.line("\tc += arr[0] + len(m)")
+		g.line("}")
 	case 0:
 		g.f("select:send-or-default")
 		g.line("select {")
